@@ -21,6 +21,7 @@ from __future__ import annotations
 
 import decimal
 import json
+import os
 import uuid
 
 from lib import core
@@ -798,6 +799,61 @@ def tuple_queries():
     return out
 
 
+# ------------------------------------------------------------------ tuples in SUBTYPE positions
+# `Collection._issubclass` (edb/schema/types.py) zips the element types of the two collections and
+# checks neither the arity nor the element names.  It decides (1) whether an overloaded pointer may
+# narrow the inherited target (`pointers._merge_types`), (2) whether a call argument needs no cast for a
+# non-polymorphic parameter (`polyres._get_cast_distance`), (3) whether a function body has the declared
+# return type (`functions.py`).  The streams below put tuple types of differing arity / element types /
+# nesting in those positions and evaluate, on the REAL schema objects, "the type that actually flows is
+# implicitly castable to the type that is declared / inferred" (names erased: storage is positional).
+def erase_names(t):
+    k = t[0]
+    if k == 'N':
+        return ('T', [erase_names(x) for _, x in t[1]])
+    if k == 'T':
+        return ('T', [erase_names(x) for x in t[1]])
+    if k == 'A':
+        return ('A', erase_names(t[1]))
+    return t
+
+
+def lit_of(t) -> str:
+    """an EdgeQL literal of exactly that type"""
+    k = t[0]
+    if k == 'S':
+        return {'int64': '1', 'str': "'x'", 'float64': '2.5', 'bool': 'true'}[t[1]]
+    if k == 'T':
+        xs = [lit_of(x) for x in t[1]]
+        return '(' + ', '.join(xs) + (',)' if len(xs) == 1 else ')')
+    if k == 'N':
+        return '(' + ', '.join(f'{n} := {lit_of(x)}' for n, x in t[1]) + ')'
+    if k == 'A':
+        return '[' + lit_of(t[1]) + ']'
+    raise ValueError(t)
+
+
+def py_of(t):
+    """the Python value toy_eval_model would produce for lit_of(t)"""
+    k = t[0]
+    if k == 'S':
+        return {'int64': 1, 'str': 'x', 'float64': 2.5, 'bool': True}[t[1]]
+    if k == 'T':
+        return tuple(py_of(x) for x in t[1])
+    if k == 'N':
+        return {n: py_of(x) for n, x in t[1]}
+    if k == 'A':
+        return [py_of(t[1])]
+    raise ValueError(t)
+
+
+def subtype_type_pool():
+    I, S_, F = ('S', 'int64'), ('S', 'str'), ('S', 'float64')
+    return [('T', [I]), ('T', [I, S_]), ('T', [I, S_, F]), ('T', [F]), ('N', [('a', I)]), ('N', [('b', I)]),
+            ('N', [('a', I), ('b', S_)]), ('A', ('T', [I])), ('A', ('T', [I, S_])),
+            ('T', [('T', [I]), S_]), ('T', [('T', [I, S_]), S_]), ('T', [I, I])]
+
+
 def fix_arity(q):
     """`op_distinct` is unary: the generator's anyq builds it with two operands"""
     k = q[0]
@@ -1297,7 +1353,7 @@ def run(ctx: core.Ctx):
         rp = json.load(open(ctx.replay))
         for f in rp['failures']:
             d = f.get('detail')
-            if isinstance(d, dict) and 'query' in d:
+            if isinstance(d, dict) and isinstance(d.get('query'), list):
                 queries.append(_untuple(d['query']))
                 if 'meta' in d:
                     ops_, where_ = d['meta']
@@ -1321,7 +1377,7 @@ def run(ctx: core.Ctx):
             seen.add(q_enc(q))
             queries.append(q)
         n_directed = len(queries)
-        target = n_directed + ctx.budget(500, 10000)
+        target = n_directed + ctx.budget(450, 10000)
         tries = 0
         while len(queries) < target and tries < target * 20:
             tries += 1
@@ -1468,6 +1524,138 @@ def run(ctx: core.Ctx):
                 break
         q_info.append((text, ty_enc(rt)))
 
+    # ---------------------------------------------------------------- tuples in subtype positions
+    from edb.common import ast as edb_ast
+    from edb.ir import ast as irast, typeutils as irtyputils
+    sub_stats = {'override': [0, 0], 'funcarg': [0, 0], 'funcret': [0, 0], 'overload': [0, 0]}   # accepted, flagged
+    arity_instances = []
+
+    def castable_erased(s_, actual, declared):
+        s_, A_ = mk_real(s_, erase_names(actual))
+        s_, D_ = mk_real(s_, erase_names(declared))
+        return A_.implicitly_castable_to(D_, s_)
+
+    def try_schema(sdl_):
+        try:
+            return env.load_schema(sdl_)
+        except edb_errors.EdgeDBError:
+            return None
+
+    def subtype_case(site, P, Q, key, sdl_=None, query=None):
+        """P declared, Q actual.  Returns after recording an oracle failure when the real code lets a value of
+        type Q flow under the declared / inferred type P although Q is not implicitly castable to P."""
+        detail = {'site': site, 'declared': ty_show(P), 'actual': ty_show(Q)}
+        if site == 'override':
+            sdl_ = sdl_ or f'type A {{ p: {ty_ql(P)}; }} type B extending A {{ overloaded p: {ty_ql(Q)}; }}'
+            s_ = try_schema(sdl_)
+            if s_ is None:
+                return
+            sub_stats[site][0] += 1
+            query = query or 'select A.p'
+            r_ = None
+            try:
+                ir_ = env.compile_to_ir(s_, query)
+                r_ = real_ty(ir_.stype, ir_.schema, gen)
+            except Exception:
+                pass
+            if castable_erased(sch, Q, P):
+                return
+            detail.update({'sdl': sdl_, 'query': query, 'stype': ty_show(r_) if r_ else None,
+                           'stored_value_of_B.p': repr(py_of(Q)),
+                           'value_inhabits_stype': bool(r_) and inhabits(py_of(Q), erase_names(r_), model, tdb),
+                           'what': "insert B { p := " + lit_of(Q) + " } is accepted and `" + query +
+                                   "` yields that value under the inferred type"})
+        elif site == 'funcarg':
+            sdl_ = sdl_ or f'function fa(x: {ty_ql(P)}) -> {ty_ql(P)} using (x);'
+            s_ = try_schema(sdl_)
+            if s_ is None:
+                return
+            query = query or f'select fa({lit_of(Q)})'
+            try:
+                ir_ = env.compile_to_ir(s_, query)
+            except edb_errors.EdgeDBError:
+                return
+            sub_stats[site][0] += 1
+            r_ = real_ty(ir_.stype, ir_.schema, gen)
+            # the type of the argument as it is PASSED (after the casts finalize_args inserted)
+            bad = None
+            for call in edb_ast.find_children(ir_.expr, irast.FunctionCall):
+                if str(call.func_shortname) != 'default::fa':
+                    continue
+                a0 = list(call.args.values())[0]
+                s3, at = irtyputils.ir_typeref_to_type(ir_.schema, a0.expr.typeref)
+                passed = real_ty(at, s3, gen)
+                if not castable_erased(sch, passed, P):
+                    bad = passed
+            if bad is None:
+                return
+            detail.update({'sdl': sdl_, 'query': query, 'stype': ty_show(r_), 'passed_argument_type': ty_show(bad),
+                           'value': repr(py_of(Q)),
+                           'value_inhabits_stype': inhabits(py_of(Q), erase_names(r_), model, tdb),
+                           'what': 'the identity function returns its argument: the value does not belong to the inferred type'})
+        elif site == 'funcret':
+            sdl_ = sdl_ or f'function fr() -> {ty_ql(P)} using ({lit_of(Q)});'
+            s_ = try_schema(sdl_)
+            if s_ is None:
+                return
+            sub_stats[site][0] += 1
+            query = query or 'select fr()'
+            ir_ = env.compile_to_ir(s_, query)
+            r_ = real_ty(ir_.stype, ir_.schema, gen)
+            if castable_erased(sch, Q, P):
+                return
+            detail.update({'sdl': sdl_, 'query': query, 'stype': ty_show(r_), 'value': repr(py_of(Q)),
+                           'value_inhabits_stype': inhabits(py_of(Q), erase_names(r_), model, tdb)})
+        else:   # overload
+            if erase_names(P) == erase_names(Q):
+                return      # overloads that differ in element names only: positional, not an arity matter
+            sdl_ = sdl_ or (f'function fo(x: {ty_ql(P)}) -> int64 using (1); '
+                            f'function fo(x: {ty_ql(Q)}) -> int64 using (2);')
+            s_ = try_schema(sdl_)
+            if s_ is None:
+                return
+            sub_stats[site][0] += 1
+            query = query or f'select fo({lit_of(P)})'
+            try:
+                env.compile_to_ir(s_, query)
+                return
+            except edb_errors.EdgeDBError as e:
+                if 'is not unique' not in str(e):
+                    return
+                detail.update({'sdl': sdl_, 'query': query, 'error': str(e)[:120],
+                               'what': 'both overloads were accepted by the DDL, yet a call whose argument has exactly '
+                                       'one of the declared types is ambiguous'})
+        sub_stats[site][1] += 1
+        detail['instance'] = key
+        arity_instances.append(detail)
+
+    # corpus witnesses first (hand-minimised; always run)
+    cpath = os.path.join(core.VERIF, 'corpus', 'C12', 'arity.case')
+    n_corpus = 0
+    if os.path.exists(cpath):
+        for ln in open(cpath):
+            if ln.strip():
+                w = json.loads(ln)
+                subtype_case(w['site'], _untuple(w['declared']), _untuple(w['actual']),
+                             f"corpus:{w['name']}",
+                             sdl_=w['sdl'], query=w['query'])
+                n_corpus += 1
+    if not ctx.replay:
+        pool = subtype_type_pool()
+        pairs = [(P, Q) for P in pool for Q in pool if P != Q]
+        if ctx.quick():
+            pairs = rng.sample(pairs, 28)
+        for P, Q in pairs:
+            for site in ('override', 'funcarg', 'funcret', 'overload'):
+                subtype_case(site, P, Q, f'{site}:{ty_show(P)}:{ty_show(Q)}')
+    if arity_instances:
+        # ONE root-cause key (matched against known_findings.json); the instances are in the detail
+        oracle_fail.append(('oracle:collection-subclass-arity',
+                            'a tuple of another arity / element type is accepted where a tuple type is declared '
+                            '(Collection._issubclass zips the element types without comparing their number)',
+                            {'count': len(arity_instances), 'instances': arity_instances[:16]}))
+    ctx.log(f'subtype positions: {n_corpus} corpus witnesses, accepted/flagged per site {sub_stats}')
+
     ctx.log('query loop seconds: ' + ', '.join(f'{k}={v:.1f}' for k, v in tm.items()))
     ctx.log(f'real side done: {n_l1} scalar lines, {n_coll} collection pairs, {n_tab} table cases {tab_hist}, '
             f'{len(queries)} queries {n_q}, {n_desc} descriptors, {n_toy} toy evaluations ({n_toy_vals} values)')
@@ -1544,6 +1732,7 @@ def run(ctx: core.Ctx):
         'query_outcomes_real': n_q, 'rejected_for_non_typing_reasons': other_rej,
         'descriptors_compared': n_desc, 'shape_descriptors_compared': n_shape,
         'tuple_operand_castability_checks': n_operand_checks,
+        'tuple_subtype_positions_accepted_flagged': sub_stats, 'corpus_witnesses': n_corpus,
         'sql_generator_internal_errors_on_typed_queries': sql_crashes,
         'toy_evaluations': n_toy, 'toy_values_classified': n_toy_vals, 'toy_skipped': toy_skipped,
         'toy_value_kinds': dict(sorted(kinds_hist.items(), key=lambda kv: -kv[1])[:25]),
